@@ -87,7 +87,10 @@ KNOWN = {
     # TPL models with finite custom bounds on var: setting len_scale / hurst /
     # len_low inside the curve closure changes var (= var_raw * var_factor)
     # before it is reset, the transient value fails the bounds check of the
-    # setter -> ValueError although all optimiser iterates are inside.
+    # setter -> ValueError although all optimiser iterates are inside.  Same
+    # with the default bound var > 0 when len_scale << len_low (var_factor
+    # rounds to 0).  Custom var bounds on TPL models are left out by
+    # construction; the remaining ValueErrors "var needs to be ..." are skipped.
     "tpl_var_bounds_transient": True,
     # curve_fit is called with scipy's absolute default tolerances on an
     # unscaled problem: gtol=1e-8 applies to J^T r / sigma^2, so the attainable
@@ -1085,6 +1088,13 @@ def check_fit(case, rec):
                 if KNOWN["dogbox_open_bound"]:
                     rec.exclude("dogbox_open_bound")
                     return
+        if isinstance(exc, ValueError) and tpl and str(exc).startswith("var needs to be") and ("var" not in free or case["method"] != "dogbox"):
+            # no optimiser iterate puts var itself on/over its bound here: the
+            # value is the transient var = var_raw * var_factor (see KNOWN)
+            vtags["kind"] = "tpl_var_bounds_transient"
+            if KNOWN["tpl_var_bounds_transient"]:
+                rec.exclude("tpl_var_bounds_transient")
+                return
         raise Violation(f"fit_variogram raised {type(exc).__name__}: {exc}", tags=vtags) from exc
 
     require(len(res) == (3 if case["return_r2"] else 2), f"fit_variogram returned {len(res)} values", dict(tags, kind="return"))
@@ -1217,7 +1227,7 @@ def check_fit(case, rec):
         if np.isfinite(c0):
             rec.discrepancy("cost_increase", max(c1 - c0, 0.0), 1e-9 * c0 + 1e-300)
             require(
-                c1 <= c0 * (1 + 1e-9) + 1e-20 * _cost("linear", y / sig),
+                c1 <= c0 * (1 + 1e-9) + 1e-16 * _cost("linear", y / sig),  # (1e-8 relative residuals)^2: rounding of the curve
                 f"fit result is worse than its documented start: cost {c1:.6g} > {c0:.6g} ({case['loss']} loss, weighted)",
                 dict(tags, kind="cost_increase"),
             )
@@ -1245,7 +1255,8 @@ def check_fit(case, rec):
         dict(tags, kind="curve", scale_ok=scale_ok),
     )
     # r2 budget inflated like the (squared) curve budget
-    tol_r2 = R2_TOL * (tol_c / (CURVE_TOL * sill_t)) ** 2
+    # (and never tighter than what the curve budget implies for flat data)
+    tol_r2 = max(R2_TOL * (tol_c / (CURVE_TOL * sill_t)) ** 2, y.size * tol_c**2 / ss_tot)
     rec.discrepancy("one_minus_r2", 1.0 - r2_or, tol_r2)
     require(1.0 - r2_or <= tol_r2, f"r2 of the fitted model is 1-{1 - r2_or:.3g} (tol {tol_r2:.3g})", dict(tags, kind="r2"))
     if r2_lib is not None:
@@ -1531,7 +1542,7 @@ def check_errors(case, rec):
         kw["nugget"] = g if case["fixed"] else False
     if kind == "control":
         # the same call without the defect must succeed (guards against a check that passes because everything raises)
-        lib(model.fit_variogram, x, y, init_guess="current", _what="control fit", _tags=tags)
+        lib(model.fit_variogram, x, y, init_guess="current", _what="control fit", _tags=tags, **{k: False for k in model.opt_arg})
         return
     try:
         with quiet():
